@@ -244,6 +244,14 @@ def run(ctx):
         if r2["bad"]:
             report(ctx, r2, limit=1)
             found = True
+    if unexpected and thorough and not found and not proof_broken:
+        # in the thorough tier a fact the extractor cannot establish is not acceptable: the generator's
+        # envelope (bodies shorter than the deadlock bound, three names, …) cannot stand in for it
+        rp = checklib.write_replay(ctx, "obligation", {"facts_unknown": unexpected,
+                                                       "facts": open(GEN).read() if os.path.exists(GEN) else None},
+                                   "every source fact established (verdict some true)", "verdict unknown: " + "; ".join(unexpected),
+                                   "harness C12 -tool skeleton", theorem="facts with verdict unknown: " + "; ".join(unexpected)[:400])
+        checklib.violation(ctx, rp, no_input=True)
     if proof_broken and not found:
         rp = checklib.write_replay(ctx, "obligation", {"failures": lres["failures"], "theorems": lres["theorems"],
                                                        "facts": open(GEN).read() if os.path.exists(GEN) else None},
